@@ -66,7 +66,7 @@ Record peer_state := {
    s_server; s_client; s_next_server; s_next_client; p_cmdq; p_out; p_finished_events; p_panic>.
 
 #[export] Instance eta_entity : Settable _ := settable! Build_entity
-  <en_mark; en_sync; en_comps; en_excl; en_parent; en_children>.
+  <en_mark; en_sync; en_sync_added; en_comps; en_excl; en_parent; en_children>.
 
 Definition init_peer (id : peer) (sync_types registry : list tyid) (order : list sysid) : peer_state :=
   {| p_id := id; p_sync_types := sync_types; p_registry := registry; p_order := order;
@@ -185,8 +185,9 @@ Definition wire_type (t : tyid) (v : value) : tyid :=
 
 (* apply_component_change_from_network(world, e_id, name, data) -> changed? *)
 Definition apply_component_change (pr : peer_state) (e : ent) (t : tyid) (v : value) : peer_state * bool :=
-  (* bin_to_reflect(...).unwrap(): the encoded type must be known to the registry *)
-  if negb (memN (wire_type t v) (p_registry pr)) then (set_panic pr PBinToReflectUnregistered, false)
+  (* try_bin_to_reflect: the encoded type must be known to the registry, else the update is ignored *)
+  let announced := wire_type t v in
+  if negb (memN announced (p_registry pr)) then (pr, false)
   else
     let '(t, v) := match v with
                    | VMapper j p => (T_SKIN, to_skinned_mesh pr j p)
@@ -194,21 +195,20 @@ Definition apply_component_change (pr : peer_state) (e : ent) (t : tyid) (v : va
                    end in
     if negb (memN t (p_registry pr)) then (pr, false)
     else match p_ents pr !! e with
-         | None => (set_panic pr PWorldEntityDead, false)          (* world.entity(e_id) *)
+         | None => (pr, false)                                      (* world.get_entity(e_id): gone => ignored *)
          | Some en =>
              match en_sync en with
              | None => (pr, false)
              | Some u =>
-                 if mem_pair (u, t) (t_ctok pr) then (pr, false)  (* "already pushed": skipped, NOT applied *)
-                 else
-                   let different := match en_comps en !! t with
-                                    | None => true
-                                    | Some c => negb (value_eqb (c_val c) v)
-                                    end in
-                   if different then
-                     let pr := pr <| t_ctok := (u, t) :: t_ctok pr |> in
-                     (upd_ent pr e (put_comp (p_tick pr) t v), true)
-                   else (pr, false)
+                 let different := match en_comps en !! t with
+                                  | None => true
+                                  | Some c => negb (value_eqb (c_val c) v)
+                                  end in
+                 if different then
+                   (* the token is recorded under the type path the detector will announce *)
+                   let pr := pr <| t_ctok := (u, announced) :: remove_pair (u, announced) (t_ctok pr) |> in
+                   (upd_ent pr e (put_comp (p_tick pr) t v), true)
+                 else (pr, false)
              end
          end.
 
@@ -252,12 +252,12 @@ Definition build_full_sync (pr : peer_state) : list msg :=
 Definition apply_cmd (pr : peer_state) (c : cmd) : peer_state :=
   match c with
   | CSpawnSync e u =>
-      pr <| p_ents := <[e := new_entity <| en_sync := Some u |>]> (p_ents pr) |>
+      pr <| p_ents := <[e := new_entity <| en_sync := Some u |> <| en_sync_added := p_tick pr |>]> (p_ents pr) |>
          <| p_reserved := removeN e (p_reserved pr) |>
   | CDespawn e | CAppDespawn e => pr <| p_ents := delete e (p_ents pr) |>
   | CInsertSync e u =>
-      if alive pr e then upd_ent pr e (fun en => en <| en_mark := None |> <| en_sync := Some u |>)
-      else set_panic pr PInsertDead
+      (* remove::<SyncMark>().try_insert(SyncEntity{uuid}): nothing happens if e is gone *)
+      upd_ent pr e (fun en => en <| en_mark := None |> <| en_sync := Some u |> <| en_sync_added := p_tick pr |>)
   | CApplyComp from e u t v =>
       let '(pr', changed) := apply_component_change pr e t v in
       match from with
@@ -267,7 +267,7 @@ Definition apply_cmd (pr : peer_state) (c : cmd) : peer_state :=
   | CSetParentSrv from cu pu =>
       match t_u2e pr !! cu, t_u2e pr !! pu with
       | Some c, Some p =>
-          if negb (alive pr c) then pr                                  (* get_entity_mut: None => return *)
+          if negb (alive pr p) || negb (alive pr c) then pr             (* get_entity(p) / get_entity_mut(c): None => return *)
           else
             let pr := if parent_differs pr c p then set_parent_twice pr c p else pr in
             match p_panic pr with
@@ -277,7 +277,7 @@ Definition apply_cmd (pr : peer_state) (c : cmd) : peer_state :=
       | _, _ => pr
       end
   | CSetParentCli c p =>
-      if negb (alive pr c) then set_panic pr PEntityMutDead                 (* world.entity_mut(c_e_id) *)
+      if negb (alive pr p) || negb (alive pr c) then pr                     (* get_entity(p) / get_entity_mut(c): None => return *)
       else if parent_differs pr c p then set_parent_twice pr c p else pr
   | CApplyMaterial from a v =>
       let pr := pr <| t_htok := a :: removeN a (t_htok pr) |> in
@@ -292,15 +292,10 @@ Definition apply_cmd (pr : peer_state) (c : cmd) : peer_state :=
       let pr := foldl (fun pr m => send pr to m) pr (build_full_sync pr) in
       send pr to MFinInit
   | CRequestInitialSync => send_up pr MReqInit
-  | CFixInsert e reinsert companions =>
-      if negb (alive pr e) then set_panic pr PInsertDead
-      else
-        let now := p_tick pr in
-        let pr := match reinsert with
-                  | Some (t, v) => upd_ent pr e (put_comp now t v)
-                  | None => pr
-                  end in
-        foldl (fun pr t => upd_ent pr e (put_comp now t (VN 0))) pr companions
+  | CFixInsert e companions =>
+      (* try_insert of each companion: nothing happens if e is gone *)
+      let now := p_tick pr in
+      foldl (fun pr t => upd_ent pr e (put_comp now t (VN 0))) pr companions
   | CAppInsert e t v =>
       if negb (alive pr e) then set_panic pr PInsertDead
       else upd_ent pr e (put_comp (p_tick pr) t v)
@@ -397,7 +392,7 @@ Definition sync_detect (pr : peer_state) (t : tyid) (last : tick) : peer_state :
   foldl (fun pr '(e, en) =>
            match en_sync en, en_comps en !! t with
            | Some u, Some c =>
-               if negb (memN t (en_excl en)) && (last <? c_changed c) then
+               if negb (memN t (en_excl en)) && ((last <? c_changed c) || (last <? en_sync_added en)) then
                  match c_val c with
                  | VSkin j p => signal_component_changed pr u T_MAPPER (to_skinned_mapper pr j p)
                  | v => signal_component_changed pr u t v
@@ -425,12 +420,12 @@ Definition react_on_changed_materials (server : bool) (pr : peer_state) : peer_s
 (* ---------- systems: bundle_fix ----------------------------------------------------------- *)
 
 Definition fix_system (pr : peer_state) (k : N) (last : tick) (trigger : tyid) (without : list tyid)
-    (reinsert : bool) (companions : list tyid) : peer_state :=
+    (companions : list tyid) : peer_state :=
   foldl (fun pr '(e, en) =>
            match en_comps en !! trigger with
            | Some c =>
                if (last <? c_added c) && forallb (fun t => negb (has_comp en t)) without then
-                 push_cmd pr k (CFixInsert e (if reinsert then Some (trigger, c_val c) else None) companions)
+                 push_cmd pr k (CFixInsert e companions)
                else pr
            | None => pr
            end) pr (ents_list pr).
@@ -595,15 +590,15 @@ Definition run_body (pr : peer_state) (s : sysid) (o : frame_oracle) : peer_stat
   let last := last_run pr k in
   let pr :=
     match s with
-    | SFixVisibility => fix_system pr k last T_VISIBILITY [T_VIEWVIS; T_INHERITEDVIS] true [T_VIEWVIS; T_INHERITEDVIS]
-    | SFixGlobalTransform => fix_system pr k last T_TRANSFORM [T_GLOBALTRANSFORM] true [T_GLOBALTRANSFORM]
-    | SFixCubemapFrusta => fix_system pr k last T_POINTLIGHT [T_CUBEMAPFRUSTA] false [T_CUBEMAPFRUSTA]
-    | SFixCubemapVisible => fix_system pr k last T_POINTLIGHT [T_CUBEMAPVISIBLE] false [T_CUBEMAPVISIBLE]
-    | SFixSpotFrustum => fix_system pr k last T_SPOTLIGHT [T_FRUSTUM] false [T_FRUSTUM]
-    | SFixCascadesFrusta => fix_system pr k last T_DIRLIGHT [T_CASCADESFRUSTA] false [T_CASCADESFRUSTA]
-    | SFixCascadesVisible => fix_system pr k last T_DIRLIGHT [T_CASCADESVISIBLE] false [T_CASCADESVISIBLE]
-    | SFixCascades => fix_system pr k last T_DIRLIGHT [T_CASCADES] false [T_CASCADES]
-    | SFixCascadeShadowCfg => fix_system pr k last T_DIRLIGHT [T_CASCADESHADOWCFG] false [T_CASCADESHADOWCFG]
+    | SFixVisibility => fix_system pr k last T_VISIBILITY [T_VIEWVIS; T_INHERITEDVIS] [T_VIEWVIS; T_INHERITEDVIS]
+    | SFixGlobalTransform => fix_system pr k last T_TRANSFORM [T_GLOBALTRANSFORM] [T_GLOBALTRANSFORM]
+    | SFixCubemapFrusta => fix_system pr k last T_POINTLIGHT [T_CUBEMAPFRUSTA] [T_CUBEMAPFRUSTA]
+    | SFixCubemapVisible => fix_system pr k last T_POINTLIGHT [T_CUBEMAPVISIBLE] [T_CUBEMAPVISIBLE]
+    | SFixSpotFrustum => fix_system pr k last T_SPOTLIGHT [T_FRUSTUM] [T_FRUSTUM]
+    | SFixCascadesFrusta => fix_system pr k last T_DIRLIGHT [T_CASCADESFRUSTA] [T_CASCADESFRUSTA]
+    | SFixCascadesVisible => fix_system pr k last T_DIRLIGHT [T_CASCADESVISIBLE] [T_CASCADESVISIBLE]
+    | SFixCascades => fix_system pr k last T_DIRLIGHT [T_CASCADES] [T_CASCADES]
+    | SFixCascadeShadowCfg => fix_system pr k last T_DIRLIGHT [T_CASCADESHADOWCFG] [T_CASCADESHADOWCFG]
     | SSrvConnected => pr <| s_next_server := Some SrvConnected |> <| p_finished_events := p_finished_events pr + 1 |>
     | SSrvDisconnected => pr <| s_next_server := Some SrvDisconnected |>
     | SSrvRemoved => entity_removed_server pr
@@ -657,7 +652,7 @@ Definition run_system (pr : peer_state) (s : sysid) (o : frame_oracle) : peer_st
         then run_body pr s o else pr
     | SCliDisconnected =>
         let '(pr, removed) := cond_resource_removed pr k (is_some (n_cli_transport pr)) in
-        if n_setup pr && is_cli_connected (s_client pr) && removed then run_body pr s o else pr
+        if n_setup pr && negb (is_cli_disconnected (s_client pr)) && removed then run_body pr s o else pr
     | SSrvRemoved | SSrvCreated | SSrvParented | SSrvReact | SSrvPromote | SSrvClientConnected | SSrvPoll =>
         if server_gate pr then run_body pr s o else pr
     | SSrvMat | SSrvImg => if server_gate pr && t_mat pr then run_body pr s o else pr
